@@ -121,3 +121,57 @@ def o8_8_confirm(v, out):
     - or every acknowledged write must be readable."""
     if out.get('_rc') != 0: return (True, 'native run panicked / failed: %s' % out.get('_stderr', '')[-300:])
     return (out.get('open') == 'ok' and out.get('lost', '0') != '0', 'native: reopen while the log directory cannot be listed: open %s, acknowledged keys unreadable afterwards: %s of %s' % (out.get('open'), out.get('lost'), out.get('keys')))
+
+
+def o9_10_manual_summary(mir, tier):
+    """CompactionWorker::log_manual_compaction_summary runs on the only background thread with the bounds the caller of compact_range
+    gave (arbitrary bytes) and the end key of the first pass: it must not have a panic path - for absent / present bounds, a finished
+    or unfinished request (the end key is present exactly when the request is not done, as coordinate_compaction calls it), and bounds
+    that are not valid UTF-8 (every byte-to-text conversion may fail)."""
+    from z3 import Bool, Not
+    fn = mir.method('CompactionWorker', 'log_manual_compaction_summary')
+    res = Result('O9.10 the manual-compaction log line cannot panic the background thread', [fn.path], 'begin / end bound absent or present (arbitrary bytes), request done or not, end key present iff not done; every bytes -> text conversion free to fail')
+    t0 = time.time()
+    for has_b in (False, True):
+        for has_e in (False, True):
+            for done in (False, True):
+                S = lib.std_summaries(); P = S['$patterns']
+                lib.combinator_summaries(P)
+                cnt = [0]
+                def from_utf8(se, env, pc, b):
+                    cnt[0] += 1; ok = Bool('bytes_%d_are_utf8' % cnt[0])
+                    return [(ok, Enum('Ok', ({'str': '<text>'},)), env.get('$state')), (Not(ok), Enum('Err', ({'err': 'FromUtf8Error'},)), env.get('$state'))]
+                P[r'String::from_utf8'] = from_utf8
+                P[r'(?:core::|std::)?str::from_utf8'] = from_utf8
+                P[r'String::from_utf8_lossy'] = lambda se, env, pc, b: lib.one(env, {'str': '<lossy text>'})
+                P[r'<Vec<u8> as From<&InternalKey>>::from'] = lambda se, env, pc, k: lib.one(env, {'len': bv(9), 'kind': 'key bytes', 'off': bv(0)})
+                P[r'<Vec<u8> as From<&&InternalKey>>::from'] = P[r'<Vec<u8> as From<&InternalKey>>::from']
+                P[r'InternalKey::get_user_key'] = lambda se, env, pc, k: lib.one(env, {'len': bv(1), 'kind': 'user key', 'off': bv(0)})
+                P[r'<\\[u8\\] as ToOwned>::to_owned'] = lib.ident; P[r'core::slice::<impl \\[u8\\]>::to_vec'] = lib.ident; P[r'<Vec<u8> as Clone>::clone'] = lib.ident
+                P[r'<str as ToString>::to_string'] = lambda se, env, pc, s_: lib.one(env, {'str': '<string>'})
+                ex = Exec(mir, S, loop_bound=4, opaque_calls_ok=True)
+                key = lambda n: mir.mk_struct('InternalKey', user_key={'len': bv(1), 'kind': 'user key', 'off': bv(0)}, sequence_number=bv(5), operation=Enum('Put', (), 'Operation'))
+                mc = mir.mk_struct('ManualCompactionConfiguration', level=bv(1), done=BoolVal(done), begin=Enum('Some', (key('b'),)) if has_b else Enum('None'), end=Enum('Some', (key('e'),)) if has_e else Enum('None'))
+                endk = Enum('None') if done else Enum('Some', (Ref('$endkey'),))
+                def k(ret, env, pc): res.checked += 1
+                ex.top(fn, [Ref('$mc'), endk], {'$state': {}, '$mc': mc, '$endkey': key('x')}, [], k)
+                res.absorb(ex); res.cases['begin=%s end=%s done=%s' % (has_b, has_e, done)] = 1
+                for pcx, msg, where in ex.panics:
+                    ex.solver.push(); ex.solver.add(*[c for c in pcx if not isinstance(c, bool)]); feas = str(ex.solver.check()) == 'sat'; ex.solver.pop()
+                    if not feas: continue
+                    res.panic_paths += 1
+                    label = 'the log line of a manual compaction can panic (bounds that are not valid UTF-8, an absent key): the only background thread dies, compact_range never returns, writers and close hang'
+                    ex.record_formula(label, pcx, BoolVal(True))
+                    if not any(v['label'] == label for v in res.violations):
+                        res.violations.append({'label': label, 'panic': msg[:80], 'case': {'begin': has_b, 'end': has_e, 'done': done}, 'replay': ['binary_range_compaction'], 'expect_hang': False})
+    res.wall_s = time.time() - t0
+    if res.violations: res.status = 'violation'
+    return res
+
+
+def o9_10_confirm(v, out):
+    """Native: compact_range with bounds that are not valid UTF-8 on a database with data in two levels, under a 20 s watchdog; a put and a
+    flush afterwards must still complete."""
+    if out.get('_rc') != 0 and not out.get('_timeout'): return (True, 'native run panicked / failed: %s' % out.get('_stderr', '')[-300:])
+    bad = out.get('compact_range') != 'returned' or out.get('later_flush') != 'ok' or bool(out.get('_timeout'))
+    return (bad, 'native: compact_range with the bounds [ff fe] .. [ff ff]: %s; a later put + flush: %s' % (out.get('compact_range'), out.get('later_flush')))
